@@ -598,7 +598,8 @@ def obj2bytes(obj):
     """Bytes representation of an object for hashing"""
     if isinstance(obj, str):
         return obj.encode("utf-8")
-    elif isinstance(obj, (bool, int, float, np.bool_)):
+    elif isinstance(obj, (bool, int, float, np.bool_, np.integer,
+                          np.floating)):
         return str(float(obj)).encode("utf-8")
     elif obj is None:
         return b"none"
@@ -607,7 +608,11 @@ def obj2bytes(obj):
     elif isinstance(obj, tuple):
         return obj2bytes(list(obj))
     elif isinstance(obj, list):
-        return b"".join(obj2bytes(o) for o in obj)
+        # Prepend the length of each item. Plain concatenation is
+        # ambiguous, e.g. [1.0, 12.0] and [1.01, 2.0] are both "1.012.0".
+        items = [obj2bytes(o) for o in obj]
+        return b"".join(str(len(it)).encode("utf-8") + b":" + it
+                        for it in items)
     elif isinstance(obj, dict):
         return obj2bytes(sorted(obj.items()))
     elif isinstance(obj, lmfit.parameter.Parameter):
